@@ -33,7 +33,7 @@ func genSketchCase(t *rapid.T) sketchCase {
 		case k < 70:
 			return sketchOp{Kind: "inc", Key: rapid.IntRange(0, nkeys-1).Draw(t, "key"), Rep: rapid.IntRange(1, 40).Draw(t, "rep")}
 		case k < 82:
-			cls := rapid.IntRange(0, 5).Draw(t, "capcls")
+			cls := rapid.IntRange(0, 6).Draw(t, "capcls")
 			var n uint64
 			switch cls {
 			case 0:
@@ -44,6 +44,10 @@ func genSketchCase(t *rapid.T) sketchCase {
 				n = uint64(rapid.IntRange(1, 64).Draw(t, "cap"))
 			case 3:
 				n = uint64(1) << rapid.IntRange(3, 16).Draw(t, "capp2")
+			case 6:
+				// just around a power of two, up to 2^21: the table length is the capacity rounded up to a power of two
+				// (bit-smearing tricks go wrong for values slightly above 2^16 and beyond)
+				n = uint64(int64(1)<<rapid.IntRange(3, 21).Draw(t, "capk") + int64(rapid.IntRange(-2, 17).Draw(t, "capd")))
 			default:
 				n = uint64(rapid.IntRange(2, 100000).Draw(t, "cap"))
 			}
